@@ -15,7 +15,8 @@ open CopVerif.Gen.Serial
 
 /-- the generated tables; `upper` is Python's `str.upper`. -/
 def genTables (upper : String → String) : Tables :=
-  { fams := families, biv := bivTable, upper := upper, gaussNoArg := gaussCtorNoArgs, vineNoArg := vineCtorNoArgs }
+  { fams := families, biv := bivTable, upper := upper, multiInstantiates := multiDispatchInstantiates,
+    gaussNoArg := gaussCtorNoArgs, vineNoArg := vineCtorNoArgs }
 
 /-! ## JSON -/
 private theorem enc_head (v : V) (h : isJson v = true) :
@@ -769,8 +770,9 @@ private theorem find_family_qual (fams : List Family) (q : String) (F : Family)
 /-- **Dispatch.**  The generic entry points build the class named in the dict:
     `Univariate.from_dict` the family whose qualified name is `d['type']`,
     `Bivariate.from_dict` the subclass whose `copula_type` is the member `d['copula_type'].upper()`,
-    `Multivariate.from_dict` a Gaussian or a vine according to `d['type']` — provided the named
-    class can be instantiated without arguments (see `generic_dispatch_multivariate`). -/
+    `Multivariate.from_dict` a Gaussian or a vine according to `d['type']` (in the former
+    `get_instance` shape only if the named class can be instantiated without arguments; see
+    `generic_dispatch_multivariate`). -/
 theorem dispatch (T : Tables) (d : V) :
     (∀ u, uniFromDict T.fams d = some u →
         ∃ kvs q, d = .dict kvs ∧ lookup kvs "type" = some (.str q) ∧ u.fam.qual = q ∧ u.fitted = true) ∧
@@ -779,8 +781,8 @@ theorem dispatch (T : Tables) (d : V) :
           T.biv.classOf (T.upper s) = some b.cls) ∧
     (∀ m, multivariateFromDict T d = some m →
         ∃ kvs q, d = .dict kvs ∧ lookup kvs "type" = some (.str q) ∧
-          ((q = gaussQual ∧ T.gaussNoArg = true ∧ ∃ g, m = .gauss g) ∨
-           (q = vineQual ∧ T.vineNoArg = true ∧ ∃ s, m = .vine s))) := by
+          ((q = gaussQual ∧ (!T.multiInstantiates || T.gaussNoArg) = true ∧ ∃ g, m = .gauss g) ∨
+           (q = vineQual ∧ (!T.multiInstantiates || T.vineNoArg) = true ∧ ∃ s, m = .vine s))) := by
   refine ⟨?_, ?_, ?_⟩
   · intro u hu
     cases d with
@@ -842,7 +844,7 @@ theorem dispatch (T : Tables) (d : V) :
           simp only [ht] at hm
           by_cases hg : q = gaussQual
           · simp only [hg, if_true] at hm
-            by_cases hn : T.gaussNoArg = true
+            by_cases hn : (!T.multiInstantiates || T.gaussNoArg) = true
             · simp only [hn, if_true] at hm
               cases hgf : gaussFromDict T.fams (.dict kvs) with
               | none => simp [hgf] at hm
@@ -851,7 +853,7 @@ theorem dispatch (T : Tables) (d : V) :
           · simp only [hg, if_false] at hm
             by_cases hv : q = vineQual
             · simp only [hv, if_true] at hm
-              by_cases hn : T.vineNoArg = true
+              by_cases hn : (!T.multiInstantiates || T.vineNoArg) = true
               · simp only [hn, if_true] at hm
                 cases hvf : vineFromDict T.fams (.dict kvs) with
                 | none => simp [hvf] at hm
@@ -861,22 +863,20 @@ theorem dispatch (T : Tables) (d : V) :
         | _ => simp [ht] at hm
     | _ => simp [multivariateFromDict] at hm
 
-/-- **Generic multivariate dispatch.**  `Multivariate.from_dict(d)` first runs
-    `get_instance(d['type'])`, i.e. calls the named class *without arguments*.  For a Gaussian dict
-    it then coincides with `GaussianMultivariate.from_dict` (the generated table says the
-    constructor needs no argument).  For a vine dict it coincides with `VineCopula.from_dict` iff
-    `VineCopula()` is possible; **as found it is not** (`vine_type` is a required positional
-    argument), so the generic entry point raises `TypeError` on every vine dict, fitted or not —
-    a violation of "the generic from_dict entry points dispatch on the recorded type", although
-    `VineCopula.from_dict(d)` succeeds (`roundtrip`). -/
+/-- **Generic multivariate dispatch** (any tables).  `Multivariate.from_dict(d)` on the dict of a
+    Gaussian model / of a vine is the class's own `from_dict(d)` — unless the entry point is of
+    the former shape `get_instance(d['type']).from_dict(d)` (`multiInstantiates`), which first
+    calls the named class *without arguments* and therefore raises `TypeError` for a class whose
+    constructor requires one. -/
 theorem generic_dispatch_multivariate (T : Tables) :
     (∀ (g : Gauss) d, g.toDict = some d →
-        fromDict T .multivariate d = if T.gaussNoArg then fromDict T .gaussian d else Option.none) ∧
+        fromDict T .multivariate d =
+          if !T.multiInstantiates || T.gaussNoArg then fromDict T .gaussian d else Option.none) ∧
     (∀ (s : Vine) d, s.toDict = some d →
-        fromDict T .multivariate d = if T.vineNoArg then fromDict T .vine d else Option.none) ∧
-    gaussCtorNoArgs = true := by
+        fromDict T .multivariate d =
+          if !T.multiInstantiates || T.vineNoArg then fromDict T .vine d else Option.none) := by
   have hne : vineQual ≠ gaussQual := by decide
-  refine ⟨?_, ?_, rfl⟩
+  refine ⟨?_, ?_⟩
   · intro g d hd
     unfold Gauss.toDict at hd
     split at hd
@@ -903,15 +903,59 @@ theorem generic_dispatch_multivariate (T : Tables) :
       simp only [fromDict, multivariateFromDict, lookup]
       simp [hne]
 
-/-- **Counter-example (as found).**  With a vine constructor that needs an argument, the generic
-    entry point fails on the dict of *every* vine while the class's own entry point rebuilds it. -/
-theorem generic_dispatch_vine_counterexample (T : Tables) (hT : T.vineNoArg = false) (s : Vine)
-    (h : VineWF T.fams s) :
+/-- **Generic dispatch at full strength for the code as it is** (regression theorem): with the
+    generated tables, `Multivariate.from_dict` equals `GaussianMultivariate.from_dict` on every
+    Gaussian dict and `VineCopula.from_dict` on every vine dict (fitted or not), so the generic
+    entry point round-trips every reachable Gaussian model and vine.  The first conjunct is the
+    decidable fact about the source that makes it so: the entry point does not instantiate the
+    class, or both constructors can be called without arguments.  If `Multivariate.from_dict`
+    goes back to `get_instance(…)` while `VineCopula.__init__` requires `vine_type`, this theorem
+    no longer checks. -/
+theorem generic_dispatch_generated (upper : String → String) :
+    ((!multiDispatchInstantiates || gaussCtorNoArgs) = true ∧ (!multiDispatchInstantiates || vineCtorNoArgs) = true) ∧
+    (∀ (g : Gauss) d, g.toDict = some d →
+        fromDict (genTables upper) .multivariate d = fromDict (genTables upper) .gaussian d) ∧
+    (∀ (s : Vine) d, s.toDict = some d →
+        fromDict (genTables upper) .multivariate d = fromDict (genTables upper) .vine d) ∧
+    (∀ m, ModelWF (genTables upper) m → m.entry = .gaussian ∨ m.entry = .vine →
+        ∃ d m', m.toDict (genTables upper) = some d ∧ fromDict (genTables upper) .multivariate d = some m' ∧
+          m'.obs = m.obs) := by
+  have hflags : (!multiDispatchInstantiates || gaussCtorNoArgs) = true ∧
+      (!multiDispatchInstantiates || vineCtorNoArgs) = true := by decide
+  have hg : ∀ (g : Gauss) d, g.toDict = some d →
+      fromDict (genTables upper) .multivariate d = fromDict (genTables upper) .gaussian d := by
+    intro g d hd
+    rw [(generic_dispatch_multivariate (genTables upper)).1 g d hd]
+    have : (!(genTables upper).multiInstantiates || (genTables upper).gaussNoArg) = true := hflags.1
+    simp [this]
+  have hv : ∀ (s : Vine) d, s.toDict = some d →
+      fromDict (genTables upper) .multivariate d = fromDict (genTables upper) .vine d := by
+    intro s d hd
+    rw [(generic_dispatch_multivariate (genTables upper)).2 s d hd]
+    have : (!(genTables upper).multiInstantiates || (genTables upper).vineNoArg) = true := hflags.2
+    simp [this]
+  refine ⟨hflags, hg, hv, ?_⟩
+  intro m hw he
+  obtain ⟨d, m', hd, hf, ho, _, _⟩ := roundtrip (genTables upper) m hw
+  refine ⟨d, m', hd, ?_, ho⟩
+  cases m with
+  | gauss g => rw [hg g d hd]; exact hf
+  | vine s => rw [hv s d hd]; exact hf
+  | uni u => simp [Model.entry] at he
+  | wrapper w => simp [Model.entry] at he
+  | biv b => simp [Model.entry] at he
+
+/-- **The former defect, as a statement about the former shape** (fixed in the repository: the
+    entry point no longer instantiates).  With an instantiating entry point and a vine
+    constructor that needs an argument, the generic entry point fails on the dict of *every* vine
+    while the class's own entry point rebuilds it. -/
+theorem generic_dispatch_vine_counterexample (T : Tables) (hI : T.multiInstantiates = true)
+    (hT : T.vineNoArg = false) (s : Vine) (h : VineWF T.fams s) :
     ∃ d s', s.toDict = some d ∧ fromDict T .vine d = some (.vine s') ∧ fromDict T .multivariate d = Option.none := by
   obtain ⟨d, s', hd, hf, _, _, _⟩ := vine_trip T.fams s h
   refine ⟨d, s', hd, by simp [fromDict, hf], ?_⟩
-  rw [(generic_dispatch_multivariate T).2.1 s d hd]
-  simp [hT]
+  rw [(generic_dispatch_multivariate T).2 s d hd]
+  simp [hI, hT]
 
 /-- the generated tables are dispatch-complete: every family is found under its own qualified
     name (no two families share one), every `CopulaTypes` member has exactly the subclass that
